@@ -364,6 +364,13 @@ inductive Tok where
 
 abbrev Desc := List Tok
 
+/-- tokens of one field value of a heap object (`rec` describes an inlined object) -/
+def tokVWith (reg : Reg) (rec : Nat → Desc) : Val → Desc
+  | .lit n => [Tok.lit n]
+  | .str s => [Tok.str s]
+  | .ref p => match lookupName reg p with | some n => [Tok.ref n] | none => [Tok.anon]
+  | .own p => rec p
+
 /-- Expected description of heap object `o` under the naming `reg` (fuel for inlined nesting). -/
 def descObj (h : Heap) (reg : Reg) : Nat → Nat → Desc
   | 0, _ => [.anon]
@@ -371,16 +378,19 @@ def descObj (h : Heap) (reg : Reg) : Nat → Nat → Desc
     match h[o]? with
     | none => [.anon]
     | some ob =>
-      .opn ob.cls ob.fields.length :: (ob.fields.map fun fld =>
-        match fld.val with
-        | .lit n => [Tok.lit n]
-        | .str s => [Tok.str s]
-        | .ref p => match lookupName reg p with | some n => [Tok.ref n] | none => [Tok.anon]
-        | .own p => descObj h reg f p).flatten
+      .opn ob.cls ob.fields.length :: (ob.fields.map fun fld => tokVWith reg (descObj h reg f) fld.val).flatten
 
 def nameOfIdx : List (Str × Nat) → Nat → Option Str
   | [], _ => none
   | (n, i) :: r, j => if i = j then some n else nameOfIdx r j
+
+/-- tokens of one field value of a restored object -/
+def tokLWith (memo : List (Str × Nat)) (rec : Nat → Desc) : LVal → Desc
+  | .lit n => [Tok.lit n]
+  | .str s => [Tok.str s]
+  | .ref j => match nameOfIdx memo j with | some n => [Tok.ref n] | none => [Tok.anon]
+  | .own j => rec j
+  | .pending => [Tok.pending]
 
 /-- Description of restored object `i` under the un-serializer's memo table. -/
 def descL (heap : List LObj) (memo : List (Str × Nat)) : Nat → Nat → Desc
@@ -389,13 +399,7 @@ def descL (heap : List LObj) (memo : List (Str × Nat)) : Nat → Nat → Desc
     match heap[i]? with
     | none => [.anon]
     | some lo =>
-      .opn lo.cls lo.fields.length :: (lo.fields.map fun v =>
-        match v with
-        | .lit n => [Tok.lit n]
-        | .str s => [Tok.str s]
-        | .ref j => match nameOfIdx memo j with | some n => [Tok.ref n] | none => [Tok.anon]
-        | .own j => descL heap memo f j
-        | .pending => [Tok.pending]).flatten
+      .opn lo.cls lo.fields.length :: (lo.fields.map (tokLWith memo (descL heap memo f))).flatten
 
 abbrev View := List (Str × Desc)
 
